@@ -1,6 +1,7 @@
 import TR.Lemmas.Stack
 import TR.Model.Listeners
 import TR.Lemmas.TimeLimiter
+import TR.Lemmas.Coalesce
 /-!
 # C20 — layers are transparent, honour Tower readiness; listeners only observe
 
@@ -158,6 +159,97 @@ theorem release_after_emit_violates :
     (finish { inflight := 1, max := 1 } [.emit, .release]).2 = [false] ∧
     (finish { inflight := 1, max := 1 } [.emit, .release]).1.admits = true ∧
     (finish { inflight := 1, max := 1 } [.release, .emit]).2 = [true] := by
+  refine ⟨rfl, rfl, rfl⟩
+
+/-! ## a finished call is not in flight (coalesce's protective condition) -/
+
+open TR.Coalesce in
+/-- **A request is coalesced only with a call that is in flight.** Over the C11 model of the coalesce layer, from ANY
+state: the poll that completes a leader's inner call (ok, error or panic) answers the leader and frees its key in that
+very step — the model has no notion of the finished future being kept or released by its caller, because that must
+not matter — so a later request with the same key is forwarded to the wrapped service as a call of its own (the next
+serial number), not made a waiter of the call that has ended. -/
+theorem coalesce_finished_call_is_not_joined (s : State) (l key k c : Nat) (sc : Step)
+    (hl : LiveLeader s l key k) (hdone : stepS s (.poll l) ≠ s)
+    (hs : (stepS s (.poll l)).svcGone = false) (hc : lookup (stepS s (.poll l)).role c = none) :
+    ∃ o, (stepS s (.poll l)).log = s.log ++ [.innerDone l key k o, .result l (outRes k o)] ∧
+      (stepS (stepS s (.poll l)) (.arrive c key sc false)).log =
+        (stepS s (.poll l)).log ++ [.innerCall c key (stepS s (.poll l)).serial] := by
+  rcases poll_leader_effect hl with h0 | ⟨o, _, hlog, hreg, _, _⟩
+  · exact absurd h0 hdone
+  · refine ⟨o, hlog, ?_⟩
+    rw [arrive_free sc hs hc hreg]
+    rfl
+
+open TR.Coalesce in
+/-- Non-vacuity, and the seeded situation: request 1 (key 7) completes at 5 ms and its caller keeps the finished future
+(nothing in the model); request 2 with the same key arrives afterwards: a second inner call, and its own response. -/
+example :
+    (run [.arrive 1 7 ⟨5, .ok⟩ false, .adv 5, .poll 1, .arrive 2 7 ⟨0, .ok⟩ false, .poll 2]).log
+      = [.innerCall 1 7 0, .innerDone 1 7 0 .ok, .result 1 (.ok 0), .innerCall 2 7 1, .innerDone 2 7 1 .ok, .result 2 (.ok 1)] := by
+  decide
+
+/-! ## a listener may use the service -/
+
+/-- **A listener that sends a request through the service changes nothing** — on every call path that never emits
+while it holds its (non-reentrant) lock: for all paths, from every state, the run with a re-entrant listener equals
+the run without one — the call returns, every event reaches every listener, the lock ends up as it would. -/
+theorem reentrant_listener_only_observes (p : List PStep) (s : PRun) (hs : s.hung = false)
+    (hp : emitsUnlocked s.locked p = true) : walk true s p = walk false s p := by
+  induction p generalizing s with
+  | nil => rfl
+  | cons st tl ih =>
+    cases st with
+    | lock =>
+      simp only [walk, hs, Bool.false_eq_true, if_false]
+      by_cases hl : s.locked = true
+      · simp [hl]
+      · simp only [hl]
+        exact ih _ (by simp) (by simpa [emitsUnlocked] using hp)
+    | unlock =>
+      simp only [walk, hs, Bool.false_eq_true, if_false]
+      exact ih _ (by simp) (by simpa [emitsUnlocked] using hp)
+    | emit =>
+      simp only [emitsUnlocked, Bool.and_eq_true, Bool.not_eq_true'] at hp
+      simp only [walk, hs, Bool.false_eq_true, if_false, hp.1, Bool.and_false]
+      exact ih _ (by simp) (by simpa [hp.1] using hp.2)
+
+/-- **An event emitted under the lock hangs the call** as soon as a listener uses the service: for every call path
+that runs through without such a listener but emits at least once while its lock is held, the run with a re-entrant
+listener never returns (so the emitting call has no outcome and the later listeners are not told the event). -/
+theorem emit_under_lock_hangs (p : List PStep) (s : PRun) (hs : s.hung = false)
+    (hplain : (walk false s p).hung = false) (hp : emitsUnlocked s.locked p = false) :
+    (walk true s p).hung = true := by
+  induction p generalizing s with
+  | nil => simp [emitsUnlocked] at hp
+  | cons st tl ih =>
+    cases st with
+    | lock =>
+      simp only [walk, hs, Bool.false_eq_true, if_false] at hplain ⊢
+      by_cases hl : s.locked = true
+      · simp [hl] at hplain
+      · simp only [hl] at hplain ⊢
+        exact ih _ (by simp) hplain (by simpa [emitsUnlocked] using hp)
+    | unlock =>
+      simp only [walk, hs, Bool.false_eq_true, if_false] at hplain ⊢
+      exact ih _ (by simp) hplain (by simpa [emitsUnlocked] using hp)
+    | emit =>
+      simp only [walk, hs, Bool.false_eq_true, if_false, Bool.false_and] at hplain ⊢
+      by_cases hl : s.locked = true
+      · simp [hl]
+      · have hl' : s.locked = false := by simpa using hl
+        simp only [hl', Bool.and_false, Bool.false_eq_true, if_false] at hplain ⊢
+        refine ih _ (by simp) hplain ?_
+        simpa [emitsUnlocked, hl'] using hp
+
+/-- The chaos layer's call path draws its rolls under the RNG lock and announces the decision after releasing it:
+a probing listener changes nothing. The seeded "announce the decision before the RNG is handed on" order — `emit`
+moved inside the locked block — hangs the call, and the event never reaches the later listeners; without a listener
+that uses the service the two orders cannot be told apart. -/
+theorem chaos_emit_inside_rng_lock_violates :
+    walk true {} [.lock, .unlock, .emit] = { locked := false, emitted := 1, hung := false } ∧
+    walk true {} [.lock, .emit, .unlock] = { locked := true, emitted := 0, hung := true } ∧
+    walk false {} [.lock, .emit, .unlock] = walk false {} [.lock, .unlock, .emit] := by
   refine ⟨rfl, rfl, rfl⟩
 
 /-! ## the time limiter is transparent however late its future is first polled -/
